@@ -38,7 +38,8 @@ def shards(tier):
 def floors(tier):
     return {"compared": 30000, "accepted": 8000, "rejected": 8000, "mutated_depth2plus": 1000,
             "metaschemas_self_accepted": 4, "keyword_shape_cells": 3000, "calibration_cases": 2000,
-            "dialects_registered": 4, "checked_after_dialect_registration": 400}
+            "dialects_registered": 4, "checked_after_dialect_registration": 400,
+            "respelled_duplicates_in_unique_arrays": 500}
 
 
 def load_metaschemas():
@@ -117,6 +118,31 @@ def confusable_variants(x):
     return out
 
 
+def respelled(x):
+    """A JSON-equal copy of x that is spelled differently: integers as floats (and back), members in reverse order."""
+    if isinstance(x, bool) or x is None or isinstance(x, str):
+        return x
+    if isinstance(x, int):
+        return float(x) if abs(x) < 2 ** 53 else x
+    if isinstance(x, float):
+        return int(x) if x.is_integer() and abs(x) < 2 ** 53 else x
+    if isinstance(x, list):
+        return [respelled(v) for v in x]
+    return {k: respelled(x[k]) for k in reversed(list(x))}
+
+
+def duplicate_candidates(d, S, value):
+    """Arrays the metaschema declares `uniqueItems` for, holding two JSON-equal members that are spelled differently."""
+    out = []
+    if d == 3 and isinstance(S, dict):
+        out += [{"type": [S, respelled(S)]}, {"disallow": ["string", S, respelled(S)]}, {"type": [respelled(S), "null", S]},
+                {"properties": {"a": {"type": [S, respelled(S)]}}}]
+    if d in (3, 4):
+        out += [{"enum": [value, respelled(value)]}, {"enum": [[value], 0, [respelled(value)]]},
+                {"items": {"enum": [{"k": value}, {"k": respelled(value)}]}}]
+    return out
+
+
 def run(ctx):
     impl.quiet()
     O = Oracle()
@@ -179,6 +205,10 @@ def run(ctx):
             compare(ctx, O, d, bad, tag="(mutated %r)" % (where,))
         if rng.random() < 0.2:
             compare(ctx, O, d, V.value(rng, 3))
+        if i % 4 == 0:
+            for cand in duplicate_candidates(d, S, V.value(rng, 2)):
+                ctx.count("respelled_duplicates_in_unique_arrays")
+                compare(ctx, O, d, cand, tag="(JSON-equal members spelled differently in a uniqueItems array)")
         if i % 5 == 0:
             # right after an accepted schema: the same schema with true<->1, false<->0, 1<->1.0 swapped somewhere
             for sw in confusable_variants(S)[:4]:
